@@ -263,6 +263,15 @@ WORKBOOKS = {
         inputs={'A1': 'a', 'A2': 1},
         formulas={'B1': ('Plus', ['A2'], 1), 'C1': ('Plus', ['A1', 'A2', 'B1'], 0),
                   'D1': ('Plus', ['A2'], 5), 'E1': ('Cat', 'C1')}),
+    # C01 "written references (cells, ranges, names)": the formulas reach their
+    # precedents through defined names (a range name and a cell name)
+    'named': dict(
+        inputs={'A1': 1, 'A2': 2},
+        formulas={'B1': ('SumR', 'A1:A2'), 'C1': ('Plus', ['A1'], 1),
+                  'D1': ('Plus', ['B1', 'C1'], 0)},
+        texts={'B1': '=SUM(RNGONE)', 'C1': '=CELLONE+1'},
+        ranges={'A1:A2': [['A1'], ['A2']]},
+        extra_cells={'__names__': {'RNGONE': 'S!$A$1:$A$2', 'CELLONE': 'S!$A$1'}}),
     # C08: an input which is blank when the model is trimmed, read directly and
     # through a range
     'blankin': dict(
